@@ -110,6 +110,19 @@ def check_laws(real, ref, role, noop):
         require(dt == t, 'deinvert changed a non-inverted triple', t, dt)
     require(real.canonicalize(('s', role, 't')) == ('s', c, 't'),
             'canonicalize(triple)', role)
+    # the answers depend on the role only, not on earlier calls about
+    # related roles (a memo primed by one call must not change another)
+    first = (real.is_role_inverted(role), real.invert_role(role),
+             real.has_role(role))
+    for rel in (role + '-of', role[:len(role) - 3]
+                if role.endswith('-of') else role + '-of-of'):
+        real.invert_role(rel)
+        real.canonicalize_role(rel)
+        real.is_role_inverted(rel)
+    again = (real.is_role_inverted(role), real.invert_role(role),
+             real.has_role(role))
+    require(again == first, 'role predicates changed after calls about '
+            'related roles', role, first, again)
 
 
 def h_role_laws(model: str, body: str, colon: bool, maxlen: int):
